@@ -6,8 +6,8 @@
     allocator pointer 1000. *)
 From CJ Require Import Base Dbl Heap Forest ForestLemmas CoreSpec CoreDefs CoreRefineFrame CoreRefineDupValue CoreLedgerGen.
 From CJ Require Import TierBridgeDefs MergeHeapDefs MergeHeapInv MergeHeapEx PatchHeapDefs PatchHeapPath PatchHeapPointer PatchHeapStr PatchHeapSteps PatchHeapDetach
-  PatchHeapApplyDefs PatchHeapOps PatchHeapFinish PatchHeapApply PatchHeapTest.
-From CJ Require Tree PointerDefs PatchDefs CoreOps.
+  PatchHeapApplyDefs PatchHeapOps PatchHeapFinish PatchHeapApply PatchHeapTest PatchHeapLoop.
+From CJ Require Tree PointerDefs PatchDefs CoreOps Rfc6902 PatchConform PatchExact PatchSeq PatchSeq2Op PatchSeqAll.
 From CJ.gen Require Import Constants.
 From stdpp Require Import gmap.
 Local Open Scope Z_scope.
@@ -311,4 +311,98 @@ Proof.
   { rewrite <- Eel. vm_compute. reflexivity. }
   rewrite Ev in H. destruct H as (h' & docT & ptT & E & I' & _ & _ & _ & _ & Hre & _ & _ & _ & NL & _).
   exists h', docT, ptT. split; [exact E|]. split; [exact I'|]. split; [apply NL, heap_of_forest_NoLeak|exact Hre].
+Qed.
+
+(** * stage 6: the entry point, and the transfer of C16 conformance *)
+Fixpoint vkeyedb (n : Tree.node) : bool :=
+  match n with
+  | Tree.Node ty _ _ _ _ cs =>
+      (if Z.land ty 255 =? c_cJSON_Object then forallb (fun c => match Tree.n_key c with Some _ => true | None => false end) cs else true) &&
+      (fix go (l : list Tree.node) : bool := match l with [] => true | c :: r => vkeyedb c && go r end) cs
+  end.
+Lemma vkeyedb_sound n : vkeyedb n = true -> vkeyed n.
+Proof.
+  induction n as [ty vs vi vd k cs IH] using Tree.node_ind'. cbn [vkeyedb]. rewrite vkeyed_unfold. intros H.
+  apply andb_true_iff in H as [H1 H2]. split.
+  - intros Ho. rewrite Ho, Z.eqb_refl in H1. rewrite forallb_forall in H1. apply Forall_forall. intros c Hc.
+    specialize (H1 c ltac:(by apply elem_of_list_In)). destruct (Tree.n_key c); [by eexists|done].
+  - clear H1. induction cs as [|c r IHr]; [constructor|]. apply andb_true_iff in H2 as [Hc Hr]. apply Forall_cons in IH as [IHc IHr'].
+    constructor; [by apply IHc|by apply IHr].
+Qed.
+Fixpoint run_okb (object : Tree.node) (ps : list Tree.node) (cs : bool) : bool :=
+  match ps with
+  | [] => true
+  | p :: r =>
+      vkeyedb object && vkeyedb p &&
+      match PatchDefs.apply_patch object p cs with
+      | Ok (st, o, _) => negb (st =? 6) && negb (st =? 8) && (if st =? 0 then run_okb o r cs else true)
+      | _ => false
+      end
+  end.
+Lemma run_okb_sound ps : forall object cs, run_okb object ps cs = true -> run_ok object ps cs.
+Proof.
+  induction ps as [|p r IH]; intros object cs; [done|]. cbn [run_okb run_ok]. intros H.
+  apply andb_true_iff in H as [H H3]. apply andb_true_iff in H as [H1 H2].
+  split; [by apply vkeyedb_sound|]. split; [by apply vkeyedb_sound|].
+  destruct (PatchDefs.apply_patch object p cs) as [[[st o] p']| |]; [|done|done].
+  apply andb_true_iff in H3 as [H3 H5]. apply andb_true_iff in H3 as [H3 H4].
+  split; [intros ->; done|]. split; [intros ->; done|]. intros ->. cbn in H5. by apply IH.
+Qed.
+
+(** the five-operation example of Properties_C16 (PatchSeqAll.five_ops_example): document
+    {"a/b":[1,2,{"~k":3}],"c":"x"}, patch add /a~1b/1 {"n":[true]}; test /a~1b/3/~0k 3; move ... to /m~0;
+    copy /a~1b to /c; remove /a~1b/0 — and its failing variant — as heaps *)
+Definition py_e1 := enc PatchSeqAll.y_doc 1.
+Definition py_e2 := enc PatchSeqAll.y_patch (py_e1.2).
+Definition py_e3 := enc PatchSeqAll.y_patch_bad (py_e2.2).
+Definition py_doc : tree := py_e1.1.1.
+Definition py_patches : tree := py_e2.1.1.
+Definition py_bad : tree := py_e3.1.1.
+Definition py_St : gmap positive bytes := list_to_map (py_e1.1.2 ++ py_e2.1.2 ++ py_e3.1.2).
+Definition py_F : forest := F2 [] [py_bad] [] py_doc py_patches.
+Definition py_heap : heap := heap_of_forest py_F py_St.
+Definition py_run := cJSONUtils_ApplyPatchesCaseSensitive nofail (Some (tid py_doc)) (Some (tid py_patches)) py_heap.
+Definition py_run_bad := cJSONUtils_ApplyPatchesCaseSensitive nofail (Some (tid py_doc)) (Some (tid py_bad)) py_heap.
+
+Lemma py_MInv : MInv py_heap py_F.
+Proof. apply heap_of_forest_MInv; vm_compute; reflexivity. Qed.
+Lemma py_reify : reify (h_str py_heap) py_doc = PatchSeqAll.y_doc /\ reify (h_str py_heap) py_patches = PatchSeqAll.y_patch /\
+                 reify (h_str py_heap) py_bad = PatchSeqAll.y_patch_bad.
+Proof. vm_compute. done. Qed.
+
+(** the heap-level entry point run on both: status, and the document read back from the heap, against the model *)
+Lemma py_runs :
+  out_val py_run = Some 0 /\ out_val py_run_bad = Some 1 /\
+  (match PatchDefs.cJSONUtils_ApplyPatchesCaseSensitive PatchSeqAll.y_doc PatchSeqAll.y_patch with
+   | Ok (st, d, _) => st = 0 /\ out_val (CoreOps.dump_node 50 (Some (tid py_doc)) (out_heap py_run py_heap)) = Some (Some (d, true))
+   | _ => False
+   end) /\
+  (match PatchDefs.cJSONUtils_ApplyPatchesCaseSensitive PatchSeqAll.y_doc PatchSeqAll.y_patch_bad with
+   | Ok (st, d, _) => st = 1 /\ out_val (CoreOps.dump_node 50 (Some (tid py_doc)) (out_heap py_run_bad py_heap)) = Some (Some (d, true))
+   | _ => False
+   end).
+Proof. vm_compute. done. Qed.
+
+(** the hypotheses of [c16_heap_conform] hold for the five-operation patch, and its conclusion: status 0, the
+    heap-level result document is [doc_same] to the RFC 6902 evaluation, nothing leaks *)
+Lemma py_stage6 :
+  MInv py_heap py_F /\ NoLeak py_heap py_F /\ run_ok PatchSeqAll.y_doc (Tree.n_children PatchSeqAll.y_patch) true /\
+  exists e h' docT arrT,
+    Rfc6902.eval PatchSeqAll.y_doc PatchSeqAll.y_ops = Some e /\
+    cJSONUtils_ApplyPatchesCaseSensitive nofail (Some (tid py_doc)) (Some (tid py_patches)) py_heap = Ret (0, h') /\
+    MInv h' (F2 [] [py_bad] [] docT (put_t py_patches [] arrT)) /\ NoLeak h' (F2 [] [py_bad] [] docT (put_t py_patches [] arrT)) /\
+    PatchExact.doc_same (reify (h_str h') docT) e.
+Proof.
+  destruct PatchSeqAll.five_ops_example as (Hd & Ho & Hw & Hg & Hf & e & d & p' & Ev & _).
+  assert (Hrun : run_ok PatchSeqAll.y_doc (Tree.n_children PatchSeqAll.y_patch) true) by (apply run_okb_sound; vm_compute; reflexivity).
+  split; [exact py_MInv|]. split; [apply heap_of_forest_NoLeak|]. split; [exact Hrun|].
+  destruct py_reify as (R1 & R2 & _).
+  assert (Ep : py_patches = T (tid py_patches) (tdata py_patches) (tchildren py_patches)) by (vm_compute; reflexivity).
+  assert (Harr : subtree_t py_patches [] = Some (T (tid py_patches) (tdata py_patches) (tchildren py_patches))) by (cbn [subtree_t]; f_equal; exact Ep).
+  rewrite Ep in R2.
+  destruct (c16_heap_conform py_heap [] [py_bad] py_doc py_patches [] (tid py_patches) (tdata py_patches) (tchildren py_patches)
+              PatchSeqAll.y_ops py_MInv Harr) as (st & h' & docT & arrT & Hr & I' & _ & _ & NL & R);
+    try (rewrite ?R1, ?R2; assumption).
+  rewrite R1, Ev in R. destruct R as (-> & Hs & _ & _).
+  exists e, h', docT, arrT. split; [done|]. split; [exact Hr|]. split; [exact I'|]. split; [apply NL, heap_of_forest_NoLeak|exact Hs].
 Qed.
